@@ -30,7 +30,7 @@ Definition lN_eqb := list_eqb N.eqb.
 Definition subsetN (a b : list N) := forallb (fun x => memN x b) a.
 Definition same_set (a b : list N) := (length a =? length b)%nat && subsetN a b && subsetN b a.
 
-Definition fuel := 3000%nat.
+Definition fuel := Nat.mul 200 100.   (* 20000: dense requests (k close to m = 100) need a little over 3000 hash calls *)
 Definition elem_idxs (t : tbl) nalg k m : list N :=
   match get_indexes (Htbl t) fuel nalg k m with Some l => l | None => [] end.
 
